@@ -600,6 +600,11 @@ func processViolation(prop string, stderr string, exitErr error) *violation {
 		v.Invariant = "concurrent-frame-write"
 		v.Site = "gorilla"
 		v.Detail = tail([]byte(stderr), 4000)
+	case strings.Contains(stderr, "panic: memory runaway"):
+		// the worker's own watchdog: the run allocated without bound
+		v.Invariant = "memory-runaway"
+		v.Site = "heap"
+		v.Detail = tail([]byte(stderr[strings.Index(stderr, "panic: memory runaway"):]), 6000)
 	case strings.Contains(stderr, "panic:") || strings.Contains(stderr, "fatal error:"):
 		v.Invariant = "process-crash"
 		v.Site = crashSite(stderr)
